@@ -37,8 +37,9 @@ variable {α : Type} [NatCast α] [Add α] [Sub α] [Mul α] [Div α] [Neg α] [
 /-- number of estimated parameters: 3 in 2D, 6 otherwise (cpp:33-38) -/
 def estSize (dim : Nat) : Nat := if dim = 2 then 3 else 6
 
-/-- constructor (cpp:30-39): default-constructed solver, then `setEstimateSize` -/
-def init (dim : Nat) : Estimator α := ⟨setEstimateSize State.default (estSize dim)⟩
+/-- constructor (cpp:30-39): default-constructed solver, then `setEstimateSize` (no rows are allocated yet, so the
+    reshaped design matrix is empty whatever the unspecified contents) -/
+def init (dim : Nat) : Estimator α := ⟨setEstimateSize State.default (estSize dim) fun _ _ => zero⟩
 
 /-- `PreconditionedPointSet::compute(points, scale)` (PreconditionedPointSet.cpp:79-98): EVERY component of every
     point — the homogeneous one included — is multiplied by the scale; matrix(0,0) = 1·scale -/
